@@ -1,15 +1,18 @@
 /-
 Helper lemmas for C10 on the extension model, part 3: the contract `FMSpecXB` of the table entries for the tables
-`InlineX.table …`.
+`InlineX.table false wikilinks nl2br`.
 
-* `.core i`: from `fmSpecB` (`Lemmas/PlaceholdersBFM.lean`); the table index and the core index agree on "is it 0"
-  (`TableOK`), which is all that `DataB` / `FoundOKB` look at;
-* `.nl` (nl2br): the match is the single newline, the node a `br` element.
+* `.core i`: from `fmSpecB` (`Lemmas/PlaceholdersBFM.lean`) and `findMatchQ` (`Lemmas/PlaceholdersXQ.lean`); the table
+  index and the core index agree on "is it 0" (`tableOK`), which is all that `DataB` / `FoundOKB` look at;
+* `.nl` (nl2br): the match is the single newline, the node a `br` element;
+* `.wikilink`: the match is `[[label]]` with `label ∈ [\w -]+`; without a `[` immediately before a blank (`Qw true`)
+  the label does not start with a blank, so `strip label` is not empty and the node is an `a` element whose text,
+  `href` and `class` consist of word characters, blanks, `-`, `_`, `/`: no STX/ETX, no `<`, `&`, backtick, backslash,
+  bracket.
 
 Core Lean only.
 -/
 import MdVerif.Lemmas.PlaceholdersXRun
-import MdVerif.Lemmas.PlaceholdersBFM
 
 namespace MdVerif.NoCtlX
 open MdVerif.NoCtl Py Inline InlineX
@@ -17,14 +20,15 @@ open MdVerif.NoCtl Py Inline InlineX
 /-! ### the contract, entry by entry -/
 
 /-- the contract of the entry `k` standing at table index `pi` -/
-def EntrySpecXB (xc : XCfg) (pi : Nat) (k : PatK) : Prop :=
+def EntrySpecXB (wl : Bool) (xc : XCfg) (pi : Nat) (k : PatK) : Prop :=
   ∀ (data : Str) (si : Nat) (x : XSt) (fo : Option Found) (x' : XSt),
-    (pi = 0 → si = 0) → DataB pi x.st.stash.length data → findX xc k data si x = some (fo, x') →
+    (pi = 0 → si = 0) → DataB pi x.st.stash.length data → Qw wl data → findX xc k data si x = some (fo, x') →
     x'.st.html = x.st.html ∧ x'.st.stash = x.st.stash ∧
-      (∀ f, fo = some f → FoundOKB x.st.stash.length pi data f) ∧ (fo = none → BtDone data)
+      (∀ f, fo = some f → FoundOKB x.st.stash.length pi data f ∧ FoundQ wl f) ∧ (fo = none → BtDone data)
 
-theorem fmSpecXB_of_entries {xc : XCfg} (h : ∀ pi k, xc.table[pi]? = some k → EntrySpecXB xc pi k) : FMSpecXB xc :=
-  fun pi k data si x fo x' hk hsi hd hf => h pi k hk data si x fo x' hsi hd hf
+theorem fmSpecXB_of_entries {wl : Bool} {xc : XCfg}
+    (h : ∀ pi k, xc.table[pi]? = some k → EntrySpecXB wl xc pi k) : FMSpecXB wl xc :=
+  fun pi k data si x fo x' hk hsi hd hq hf => h pi k hk data si x fo x' hsi hd hq hf
 
 /-! ### transfer between the table index and the core index -/
 
@@ -61,9 +65,9 @@ theorem foundOKB_congr {pi i k : Nat} (h : pi = 0 ↔ i = 0) {data : Str} {f : F
 
 /-! ### core entries -/
 
-theorem entry_core {xc : XCfg} (hcfg : EscOK xc.cfg.esc) (hrefs : RefsOK xc.cfg) {pi i : Nat}
-    (hi : i < patternCount) (hz : pi = 0 ↔ i = 0) : EntrySpecXB xc pi (.core i) := by
-  intro data si x fo x' hsi hd h
+theorem entry_core {wl : Bool} {xc : XCfg} (hcfg : EscOK xc.cfg.esc) (hrefs : RefsOK xc.cfg) {pi i : Nat}
+    (hi : i < patternCount) (hz : pi = 0 ↔ i = 0) : EntrySpecXB wl xc pi (.core i) := by
+  intro data si x fo x' hsi hd hq h
   simp only [findX] at h
   cases hf : findMatch xc.cfg i data si x.st with
   | none => simp [hf] at h
@@ -71,15 +75,18 @@ theorem entry_core {xc : XCfg} (hcfg : EscOK xc.cfg.esc) (hrefs : RefsOK xc.cfg)
     obtain ⟨fo', st'⟩ := r
     simp only [hf, Option.some.injEq, Prod.mk.injEq] at h
     obtain ⟨rfl, rfl⟩ := h
-    obtain ⟨e, h1, h2⟩ := fmSpecB hcfg hrefs i data si x.st fo' st' hi (fun h0 => hsi (hz.2 h0))
-      (dataB_congr hz hd) hf
+    have hsi' : i = 0 → si = 0 := fun h0 => hsi (hz.2 h0)
+    have hd' := dataB_congr hz hd
+    obtain ⟨e, h1, h2⟩ := fmSpecB hcfg hrefs i data si x.st fo' st' hi hsi' hd' hf
     subst e
-    exact ⟨rfl, rfl, fun f hfo => foundOKB_congr hz (h1 f hfo), h2⟩
+    refine ⟨rfl, rfl, fun f hfo => ⟨foundOKB_congr hz (h1 f hfo), ?_⟩, h2⟩
+    subst hfo
+    exact findMatchQ hi hd' hsi' hq hf
 
 /-! ### nl2br -/
 
-theorem entry_nl {xc : XCfg} {pi : Nat} (hpi : 1 ≤ pi) : EntrySpecXB xc pi .nl := by
-  intro data si x fo x' _ hd h
+theorem entry_nl {wl : Bool} {xc : XCfg} {pi : Nat} (hpi : 1 ≤ pi) : EntrySpecXB wl xc pi .nl := by
+  intro data si x fo x' _ hd _ h
   have hdone : BtDone data := (btInv_succ hpi).1 hd.bt
   simp only [findX] at h
   split at h
@@ -102,9 +109,553 @@ theorem entry_nl {xc : XCfg} {pi : Nat} (hpi : 1 ≤ pi) : EntrySpecXB xc pi .nl
         (by intro c hc; simp at hc; subst hc; decide) (by intro c hc; simp at hc; subst hc; decide)
       have e : ((si + pre.length + 1 : Nat) : Int) = ((si + pre.length + ['\n'].length : Nat) : Int) := by
         simp
-      refine ⟨?_, (brNode_snodeB x.st.stash.length).1, (brNode_snodeB x.st.stash.length).2, fun h0 => by omega⟩
+      refine ⟨⟨?_, (brNode_snodeB x.st.stash.length).1, (brNode_snodeB x.st.stash.length).2, fun h0 => by omega⟩,
+        qn_mkEl wl "br"⟩
       show SpliceB _ pi data (si + pre.length) ((si + pre.length + 1 : Nat) : Int)
       rw [e]; exact this
+
+/-! ### wikilinks: the characters of a label -/
+
+theorem wk_space_word_disjoint :
+    Generated.Chars.spaceNonAscii.all (fun n => !inRanges Generated.Chars.wordNonAscii n) = true := by
+  decide +kernel
+
+theorem wk_alnum_toNat {c : Char} (h : isAsciiAlnum c = true) : 48 ≤ c.toNat := by
+  simp only [isAsciiAlnum, isAsciiAlpha, isAsciiDigit, isAsciiLower, isAsciiUpper, Bool.or_eq_true, Bool.and_eq_true,
+    decide_eq_true_eq, Char.le_def, UInt32.le_iff_toNat_le] at h
+  have e0 : ('0' : Char).val.toNat = 48 := by decide
+  have ea : ('a' : Char).val.toNat = 97 := by decide
+  have eA : ('A' : Char).val.toNat = 65 := by decide
+  have : c.toNat = c.val.toNat := rfl
+  omega
+
+/-- `\w` and `\s` are disjoint -/
+theorem wk_word_not_space {c : Char} (h : isWord c = true) : isSpace c = false := by
+  unfold isWord at h
+  unfold isSpace
+  by_cases hlt : c.toNat < 128
+  · simp only [hlt, if_true] at h ⊢
+    simp only [Bool.or_eq_true, decide_eq_true_eq] at h
+    rcases h with h | rfl
+    · have h48 := wk_alnum_toNat h
+      have e : ∀ d : Char, c = d → c.toNat = d.toNat := fun d e => by rw [e]
+      simp only [Bool.or_eq_false_iff, decide_eq_false_iff_not, Bool.and_eq_false_iff, Nat.not_le]
+      refine ⟨⟨⟨⟨⟨⟨?_, ?_⟩, ?_⟩, ?_⟩, ?_⟩, ?_⟩, ?_⟩
+      · intro e1; have := e _ e1; simp at this; omega
+      · intro e1; have := e _ e1; simp at this; omega
+      · intro e1; have := e _ e1; simp at this; omega
+      · intro e1; have := e _ e1; simp at this; omega
+      · omega
+      · omega
+      · omega
+    · decide
+  · simp only [hlt, if_false] at h ⊢
+    cases hs : Generated.Chars.spaceNonAscii.contains c.toNat with
+    | false => rfl
+    | true =>
+      have hm : c.toNat ∈ Generated.Chars.spaceNonAscii := by simpa using hs
+      have := List.all_eq_true.1 wk_space_word_disjoint _ hm
+      simp [h] at this
+
+theorem wk_wikiChar_not_space {c : Char} (h : isWikiChar c = true) (hc : c ≠ ' ') : isSpace c = false := by
+  simp only [isWikiChar, Bool.or_eq_true, decide_eq_true_eq] at h
+  rcases h with (h | h) | h
+  · exact wk_word_not_space h
+  · exact absurd h hc
+  · subst h; decide
+
+/-- a string of label characters (and `/`) has none of the characters the invariants care about -/
+def LabelStr (s : Str) : Prop := ∀ c ∈ s, isWikiChar c = true ∨ c = '/'
+
+theorem labelStr_facts {s : Str} (h : LabelStr s) :
+    NoCtl s ∧ DomB s ∧ '`' ∉ s ∧ '[' ∉ s ∧ ']' ∉ s ∧ '\\' ∉ s := by
+  have key : ∀ d : Char, isWikiChar d = false → d ≠ '/' → d ∉ s := by
+    intro d hd hd' hm
+    rcases h d hm with h1 | h1
+    · rw [h1] at hd; cases hd
+    · exact hd' h1
+  refine ⟨noCtl_iff.2 fun c hc => ⟨?_, ?_⟩, fun c hc => ?_, key _ (by decide) (by decide), key _ (by decide) (by decide),
+    key _ (by decide) (by decide), key _ (by decide) (by decide)⟩
+  · rintro rfl; exact key NoCtl.STX (by decide) (by decide) hc
+  · rintro rfl; exact key NoCtl.ETX (by decide) (by decide) hc
+  · simp only [domCharB, Bool.and_eq_true, bne_iff_ne, ne_eq]
+    exact ⟨by rintro rfl; exact key '<' (by decide) (by decide) hc,
+      by rintro rfl; exact key '&' (by decide) (by decide) hc⟩
+
+theorem labelStr_strB {s : Str} (h : LabelStr s) (k : Nat) : StrB k (some s) := by
+  obtain ⟨h1, h2, h3, h4, h5, h6⟩ := labelStr_facts h
+  exact ⟨WF.of_noCtl h1, h2, adj3_of_no_bracket (noAdj_of_no_backtick h3) h4 h5, btDone_of_no_backtick h3⟩
+
+theorem mem_cleanLabel : ∀ (s : Str) (k : Nat) (c : Char), c ∈ cleanLabel k s → c ∈ s ∨ c = '_' := by
+  intro s
+  induction s with
+  | nil => intro k c h; cases k <;> simp [cleanLabel] at h
+  | cons a r ih =>
+    intro k c h
+    cases k with
+    | succ k =>
+      simp only [cleanLabel] at h
+      rcases ih k c h with h | h
+      · exact .inl (List.mem_cons_of_mem _ h)
+      · exact .inr h
+    | zero =>
+      simp only [cleanLabel] at h
+      split at h
+      · split at h
+        · rcases List.mem_cons.1 h with h | h
+          · exact .inr h
+          · rcases ih _ c h with h | h
+            · exact .inl (List.mem_cons_of_mem _ h)
+            · exact .inr h
+        · rcases List.mem_cons.1 h with h | h
+          · exact .inr h
+          · rcases ih _ c h with h | h
+            · exact .inl (List.mem_cons_of_mem _ h)
+            · exact .inr h
+      · split at h
+        · rcases List.mem_cons.1 h with h | h
+          · exact .inr h
+          · rcases ih _ c h with h | h
+            · exact .inl (List.mem_cons_of_mem _ h)
+            · exact .inr h
+        · rcases List.mem_cons.1 h with h | h
+          · exact .inl (by simp [h])
+          · rcases ih _ c h with h | h
+            · exact .inl (List.mem_cons_of_mem _ h)
+            · exact .inr h
+
+/-! ### wikilinks: the match -/
+
+theorem wikiAt_spec {suf g : Str} {len : Nat} (h : wikiAt suf = some (g, len)) :
+    ∃ post, suf = ('[' :: '[' :: g) ++ [']', ']'] ++ post ∧ len = g.length + 4 ∧ g ≠ [] ∧
+      ∀ c ∈ g, isWikiChar c = true := by
+  unfold wikiAt at h
+  split at h
+  · rename_i r
+    simp only at h
+    split at h
+    · rename_i hc
+      simp only [Bool.and_eq_true, decide_eq_true_eq, beq_iff_eq] at hc
+      obtain ⟨⟨hn, h1⟩, h2⟩ := hc
+      simp only [Option.some.injEq, Prod.mk.injEq] at h
+      obtain ⟨rfl, rfl⟩ := h
+      have hle := spanLen_le isWikiChar r
+      have hlt1 : spanLen isWikiChar r < r.length := by
+        rcases Nat.lt_or_ge (spanLen isWikiChar r) r.length with h | h
+        · exact h
+        · rw [List.getElem?_eq_none h] at h1; cases h1
+      have hlt2 : spanLen isWikiChar r + 1 < r.length := by
+        rcases Nat.lt_or_ge (spanLen isWikiChar r + 1) r.length with h | h
+        · exact h
+        · rw [List.getElem?_eq_none h] at h2; cases h2
+      have e1 : r[spanLen isWikiChar r] = ']' := by
+        rw [List.getElem?_eq_getElem hlt1] at h1; exact Option.some.inj h1
+      have e2 : r[spanLen isWikiChar r + 1] = ']' := by
+        rw [List.getElem?_eq_getElem hlt2] at h2; exact Option.some.inj h2
+      have hr : r = r.take (spanLen isWikiChar r) ++ [']', ']'] ++ r.drop (spanLen isWikiChar r + 2) := by
+        conv => lhs; rw [← List.take_append_drop (spanLen isWikiChar r) r]
+        rw [List.drop_eq_getElem_cons hlt1, e1, List.drop_eq_getElem_cons hlt2, e2]
+        simp
+      refine ⟨r.drop (spanLen isWikiChar r + 2), ?_, ?_, ?_, spanLen_prefix_all isWikiChar r⟩
+      · conv => lhs; rw [hr]
+        simp
+      · simp only [List.length_take]
+        omega
+      · intro he
+        have := congrArg List.length he
+        simp only [List.length_take, List.length_nil] at this
+        omega
+    · cases h
+  · cases h
+
+theorem wikiScan_spec : ∀ (suf : Str) (i : Nat) (g : Str) (s e : Nat), wikiScan suf i = some (g, s, e) →
+    ∃ pre post, suf = pre ++ (('[' :: '[' :: g) ++ [']', ']']) ++ post ∧ s = i + pre.length ∧
+      e = s + (g.length + 4) ∧ g ≠ [] ∧ ∀ c ∈ g, isWikiChar c = true := by
+  intro suf
+  induction suf with
+  | nil => intro i g s e h; simp [wikiScan] at h
+  | cons c r ih =>
+    intro i g s e h
+    simp only [wikiScan] at h
+    cases ha : wikiAt (c :: r) with
+    | none =>
+      simp only [ha] at h
+      obtain ⟨pre, post, h1, h2, h3, h4, h5⟩ := ih _ _ _ _ h
+      refine ⟨c :: pre, post, by rw [h1]; simp, by rw [h2]; simp; omega, h3, h4, h5⟩
+    | some p =>
+      obtain ⟨g', len⟩ := p
+      simp only [ha, Option.some.injEq, Prod.mk.injEq] at h
+      obtain ⟨rfl, rfl, rfl⟩ := h
+      obtain ⟨post, h1, h2, h3, h4⟩ := wikiAt_spec ha
+      exact ⟨[], post, by rw [h1]; simp, by simp, by rw [h2], h3, h4⟩
+
+/-- the element of a wikilink with a non-blank label -/
+theorem wikiNode_ok {g : Str} (hg : ∀ c ∈ g, isWikiChar c = true) (hne : strip g ≠ []) (k : Nat) (wl : Bool)
+    (hq : Qw wl g) :
+    ∃ n, wikiNode g = .el n ∧ n.Forall (SNodeB k) ∧ n.tail = none ∧ isCode n = false ∧ n.Forall (QN wl) := by
+  have hemp : (strip g).isEmpty = false := by
+    cases hs : strip g with
+    | nil => exact absurd hs hne
+    | cons a b => rfl
+  have hlab : LabelStr (strip g) := fun c hc => .inl (hg c ((strip_infix g).subset hc))
+  have hhref : LabelStr ('/' :: cleanLabel 0 (strip g) ++ ['/']) := by
+    intro c hc
+    simp only [List.cons_append, List.mem_cons, List.mem_append, List.not_mem_nil, or_false] at hc
+    rcases hc with rfl | hc | rfl
+    · exact .inr rfl
+    · rcases mem_cleanLabel _ _ _ hc with h | rfl
+      · exact hlab c h
+      · exact .inl (by decide)
+    · exact .inr rfl
+  let a0 : Node := { mkEl "a" with text := some (strip g) }
+  let a1 : Node := a0.setAttr "href".toList ('/' :: cleanLabel 0 (strip g) ++ ['/'])
+  let a2 : Node := a1.setAttr "class".toList "wikilink".toList
+  have hn : wikiNode g = .el a2 := by
+    unfold wikiNode
+    simp only [hemp, Bool.false_eq_true, if_false]
+    rfl
+  obtain ⟨f1, f2, f3, f4, f5, f6⟩ := setAttr_frame a0 "href".toList ('/' :: cleanLabel 0 (strip g) ++ ['/'])
+  obtain ⟨g1, g2, g3, g4, g5, g6⟩ := setAttr_frame a1 "class".toList "wikilink".toList
+  have hattrs : attrsNoCtl a2.attrs :=
+    attrsNoCtl_setAttr (attrsNoCtl_setAttr (n := a0) (by intro kv hkv; simp [a0, mkEl] at hkv) (by decide)
+      (labelStr_facts hhref).1) (by decide) (by decide)
+  have htag : a2.tag = .name "a".toList := by rw [g1, f1]; rfl
+  have htext : a2.text = some (strip g) := by rw [g2, f2]
+  have hta : a2.textAtomic = false := by rw [g3, f3]; rfl
+  have hkids : a2.children = [] := by rw [g4, f4]; rfl
+  have htail : a2.tail = none := by rw [g5, f5]; rfl
+  have htla : a2.tailAtomic = false := by rw [g6, f6]; rfl
+  have hcode : isCode a2 = false := by
+    simp only [isCode, htag]; decide
+  refine ⟨a2, hn, ?_, htail, hcode, ?_⟩
+  · rw [Node.forall_iff]
+    refine ⟨⟨by rw [htag]; show NoCtl "a".toList; decide, hattrs, htla, by rw [htail]; exact strB_none k, ?_⟩,
+      by rw [hkids]; intro c hc; cases hc⟩
+    rw [if_neg (by rw [hcode]; decide)]
+    exact ⟨hta, by rw [htext]; exact labelStr_strB hlab k⟩
+  · rw [Node.forall_iff]
+    refine ⟨⟨fun _ => by rw [htext]; exact hq.infix (strip_infix g), by rw [htail]; exact qw_nil wl⟩,
+      by rw [hkids]; intro c hc; cases hc⟩
+
+theorem entry_wikilink {xc : XCfg} {pi : Nat} (hpi : 1 ≤ pi) : EntrySpecXB true xc pi .wikilink := by
+  intro data si x fo x' _ hd hq h
+  have hdone : BtDone data := (btInv_succ hpi).1 hd.bt
+  simp only [findX] at h
+  split at h
+  · simp only [Option.some.injEq, Prod.mk.injEq] at h
+    obtain ⟨rfl, rfl⟩ := h
+    exact ⟨rfl, rfl, fun f hf => (by cases hf), fun _ => hdone⟩
+  · cases hf : wikiScan (data.drop si) si with
+    | none =>
+      simp only [hf, Option.some.injEq, Prod.mk.injEq] at h
+      obtain ⟨rfl, rfl⟩ := h
+      exact ⟨rfl, rfl, fun f hf => (by cases hf), fun _ => hdone⟩
+    | some r =>
+      obtain ⟨g, s, e⟩ := r
+      simp only [hf, Option.some.injEq, Prod.mk.injEq] at h
+      obtain ⟨rfl, rfl⟩ := h
+      refine ⟨rfl, rfl, ?_, fun h0 => by cases h0⟩
+      intro f hfo
+      cases hfo
+      obtain ⟨pre, post, hsuf, rfl, rfl, hgne, hgc⟩ := wikiScan_spec _ _ _ _ _ hf
+      have hMne : ('[' :: '[' :: g) ++ [']', ']'] ≠ [] := by simp
+      have hsp := spliceB_of_span (M := ('[' :: '[' :: g) ++ [']', ']']) hpi hd hsuf hMne
+        (by intro c hc; simp at hc; subst hc; decide)
+        (by intro c hc
+            rw [show ('[' :: '[' :: g) ++ [']', ']'] = (('[' :: '[' :: g) ++ [']']) ++ [']'] by simp,
+              List.getLast?_concat] at hc
+            cases hc; decide)
+      obtain ⟨-, -, -, hdata⟩ := span_of_suffix hsuf hMne
+      have hginf : g <:+: data := by
+        refine ⟨(data.take si ++ pre) ++ ['[', '['], [']', ']'] ++ post, ?_⟩
+        conv => rhs; rw [hdata]
+        simp
+      -- the label does not start with a blank
+      obtain ⟨c0, g', rfl⟩ : ∃ c0 g', g = c0 :: g' := by
+        cases g with
+        | nil => exact absurd rfl hgne
+        | cons a b => exact ⟨a, b, rfl⟩
+      have hc0 : c0 ≠ ' ' := by
+        rintro rfl
+        have := hq rfl
+        rw [noPair_iff] at this
+        refine this ((data.take si ++ pre) ++ ['[']) (g' ++ [']', ']'] ++ post) ?_
+        conv => lhs; rw [hdata]
+        simp
+      have hns : strip (c0 :: g') ≠ [] := by
+        intro he
+        have := (strip_eq_nil_iff _).1 he
+        simp only [isBlank, List.all_cons, Bool.and_eq_true] at this
+        rw [wk_wikiChar_not_space (hgc c0 (by simp)) hc0] at this
+        exact absurd this.1 (by decide)
+      obtain ⟨n, hn, n1, n2, n3, n4⟩ := wikiNode_ok hgc hns x.st.stash.length true (hq.infix hginf)
+      have elen : ((si + pre.length + ((c0 :: g').length + 4) : Nat) : Int) =
+          ((si + pre.length + (('[' :: '[' :: c0 :: g') ++ [']', ']']).length : Nat) : Int) := by
+        simp; omega
+      constructor
+      · unfold FoundOKB
+        simp only [hn]
+        refine ⟨?_, n1, n2, fun h0 => by omega⟩
+        rw [elen]; exact hsp
+      · unfold FoundQ
+        simp only [hn]
+        exact n4
+
+/-! ### footnote references -/
+
+theorem qw_of_no_bracket {wl : Bool} {s : Str} (h : '[' ∉ s) : Qw wl s := fun _ => noPair_of_not_mem_left h
+
+theorem digits_strB {s : Str} (h : ∀ c ∈ s, isAsciiDigit c = true) (k : Nat) :
+    StrB k (some s) ∧ NoCtl s ∧ '[' ∉ s := by
+  have key : ∀ d : Char, isAsciiDigit d = false → d ∉ s := by
+    intro d hd hm
+    rw [h d hm] at hd; cases hd
+  have hn : NoCtl s := noCtl_iff.2 fun c hc =>
+    ⟨by rintro rfl; exact key NoCtl.STX (by decide) hc, by rintro rfl; exact key NoCtl.ETX (by decide) hc⟩
+  refine ⟨⟨WF.of_noCtl hn, fun c hc => ?_, adj3_of_no_bracket (noAdj_of_no_backtick (key _ (by decide)))
+    (key _ (by decide)) (key _ (by decide)), btDone_of_no_backtick (key _ (by decide))⟩, hn, key _ (by decide)⟩
+  simp only [domCharB, Bool.and_eq_true, bne_iff_ne, ne_eq]
+  exact ⟨by rintro rfl; exact key '<' (by decide) hc, by rintro rfl; exact key '&' (by decide) hc⟩
+
+theorem splitFirst_spec {c : Char} : ∀ {s a b : Str}, Footnotes.splitFirst c s = some (a, b) → s = a ++ c :: b := by
+  intro s
+  induction s with
+  | nil => intro a b h; simp [Footnotes.splitFirst] at h
+  | cons x r ih =>
+    intro a b h
+    simp only [Footnotes.splitFirst] at h
+    split at h
+    · rename_i hx
+      simp only [Option.some.injEq, Prod.mk.injEq] at h
+      obtain ⟨rfl, rfl⟩ := h
+      simp [hx]
+    · cases hs : Footnotes.splitFirst c r with
+      | none => simp [hs] at h
+      | some p =>
+        obtain ⟨a', b'⟩ := p
+        simp only [hs, Option.map_some, Option.some.injEq, Prod.mk.injEq] at h
+        obtain ⟨rfl, rfl⟩ := h
+        rw [ih hs]; simp
+
+theorem noCtl_natToDec (n : Nat) : NoCtl (natToDec n) := (digits_strB (natToDec_digits n) 0).2.1
+
+theorem noCtl_bumpRef {r : Str} (h : NoCtl r) : NoCtl (Footnotes.bumpRef r) := by
+  unfold Footnotes.bumpRef
+  cases hs : Footnotes.splitFirst ':' r with
+  | none => exact h
+  | some p =>
+    obtain ⟨ref, rest⟩ := p
+    have hr := splitFirst_spec hs
+    rw [hr] at h
+    obtain ⟨h1, h2⟩ := noCtl_append.1 h
+    have h3 : NoCtl rest := (noCtl_cons.1 h2).2
+    simp only
+    cases hm : Footnotes.refIdMatch ref with
+    | none =>
+      simp only
+      exact noCtl_append.2 ⟨noCtl_append.2 ⟨h1, noCtl_natToDec _⟩, noCtl_cons.2 ⟨by decide, h3⟩⟩
+    | some q =>
+      obtain ⟨g1, g2⟩ := q
+      simp only
+      have hg1 : g1 = Footnotes.fnref := by
+        unfold Footnotes.refIdMatch at hm
+        split at hm
+        · split at hm
+          · cases hm
+          · simp only [Option.some.injEq, Prod.mk.injEq] at hm
+            exact hm.1.symm
+        · cases hm
+      subst hg1
+      exact noCtl_append.2 ⟨noCtl_append.2 ⟨by decide, noCtl_natToDec _⟩, noCtl_cons.2 ⟨by decide, h3⟩⟩
+
+theorem noCtl_uniqueRefLoop (used : List Str) : ∀ (fuel : Nat) (r : Str), NoCtl r →
+    NoCtl (Footnotes.uniqueRefLoop fuel r used) := by
+  intro fuel
+  induction fuel with
+  | zero => intro r h; exact h
+  | succ f ih =>
+    intro r h
+    simp only [Footnotes.uniqueRefLoop]
+    split
+    · exact ih _ (noCtl_bumpRef h)
+    · exact h
+
+theorem noCtl_footnoteRefId {id : Str} (h : NoCtl id) (st : Footnotes.State) :
+    NoCtl (Footnotes.footnoteRefId id true st).1 := by
+  simp only [Footnotes.footnoteRefId, Footnotes.uniqueRef, if_true]
+  exact noCtl_uniqueRefLoop _ _ _ (noCtl_append.2 ⟨by decide, noCtl_cons.2 ⟨by decide, h⟩⟩)
+
+theorem fnRefAt_spec {suf id : Str} {len : Nat} (h : fnRefAt suf = some (id, len)) :
+    ∃ post, suf = ('[' :: '^' :: id) ++ [']'] ++ post ∧ len = id.length + 3 := by
+  unfold fnRefAt at h
+  split at h
+  · rename_i r
+    simp only at h
+    split at h
+    · rename_i hc
+      simp only [beq_iff_eq] at hc
+      simp only [Option.some.injEq, Prod.mk.injEq] at h
+      obtain ⟨rfl, rfl⟩ := h
+      have hlt : spanLen (fun c => c != ']') r < r.length := by
+        rcases Nat.lt_or_ge (spanLen (fun c => c != ']') r) r.length with h | h
+        · exact h
+        · rw [List.getElem?_eq_none h] at hc; cases hc
+      have e1 : r[spanLen (fun c => c != ']') r] = ']' := by
+        rw [List.getElem?_eq_getElem hlt] at hc; exact Option.some.inj hc
+      refine ⟨r.drop (spanLen (fun c => c != ']') r + 1), ?_, ?_⟩
+      · have hr : r = r.take (spanLen (fun c => c != ']') r) ++ ']' :: r.drop (spanLen (fun c => c != ']') r + 1) := by
+          conv => lhs; rw [← List.take_append_drop (spanLen (fun c => c != ']') r) r]
+          rw [List.drop_eq_getElem_cons hlt, e1]
+        conv => lhs; rw [hr]
+        simp
+      · simp only [List.length_take]
+        have := spanLen_le (fun c => c != ']') r
+        omega
+    · cases h
+  · cases h
+
+theorem fnRefScan_spec (keys : List Str) : ∀ (suf : Str) (k i : Nat) (id : Str) (s e : Nat),
+    fnRefScan keys k suf i = some (id, s, e) →
+    ∃ pre post, suf = pre ++ (('[' :: '^' :: id) ++ [']']) ++ post ∧ s = i + pre.length ∧
+      e = s + (id.length + 3) ∧ keys.contains id = true := by
+  intro suf
+  induction suf with
+  | nil => intro k i id s e h; cases k <;> simp [fnRefScan] at h
+  | cons c r ih =>
+    intro k i id s e h
+    have step : ∀ k', fnRefScan keys k' r (i + 1) = some (id, s, e) →
+        ∃ pre post, c :: r = pre ++ (('[' :: '^' :: id) ++ [']']) ++ post ∧ s = i + pre.length ∧
+          e = s + (id.length + 3) ∧ keys.contains id = true := by
+      intro k' h'
+      obtain ⟨pre, post, h1, h2, h3, h4⟩ := ih _ _ _ _ _ h'
+      exact ⟨c :: pre, post, by rw [h1]; simp, by rw [h2]; simp; omega, h3, h4⟩
+    cases k with
+    | succ k => simp only [fnRefScan] at h; exact step _ h
+    | zero =>
+      simp only [fnRefScan] at h
+      cases ha : fnRefAt (c :: r) with
+      | none => simp only [ha] at h; exact step _ h
+      | some p =>
+        obtain ⟨id', len⟩ := p
+        simp only [ha] at h
+        split at h
+        · rename_i hk
+          simp only [Option.some.injEq, Prod.mk.injEq] at h
+          obtain ⟨rfl, rfl, rfl⟩ := h
+          obtain ⟨post, h1, h2⟩ := fnRefAt_spec ha
+          exact ⟨[], post, by rw [h1]; simp, by simp, by rw [h2], hk⟩
+        · exact step _ h
+
+/-- an `a` element with a good text and two harmless attributes -/
+theorem aNode2_ok {t k1 v1 k2 v2 : Str} (hk1 : NoCtl k1) (hv1 : NoCtl v1) (hk2 : NoCtl k2) (hv2 : NoCtl v2) (k : Nat)
+    (ht : StrB k (some t)) (wl : Bool) (hq : Qw wl t) :
+    let a : Node := (({ mkEl "a" with text := some t } : Node).setAttr k1 v1).setAttr k2 v2
+    a.Forall (SNodeB k) ∧ a.tail = none ∧ isCode a = false ∧ a.Forall (QN wl) := by
+  intro a
+  obtain ⟨f1, f2, f3, f4, f5, f6⟩ := setAttr_frame ({ mkEl "a" with text := some t } : Node) k1 v1
+  obtain ⟨g1, g2, g3, g4, g5, g6⟩ := setAttr_frame (({ mkEl "a" with text := some t } : Node).setAttr k1 v1) k2 v2
+  have hattrs : attrsNoCtl a.attrs :=
+    attrsNoCtl_setAttr (attrsNoCtl_setAttr (n := { mkEl "a" with text := some t })
+      (by intro kv hkv; simp [mkEl] at hkv) hk1 hv1) hk2 hv2
+  have htag : a.tag = .name "a".toList := by rw [g1, f1]; rfl
+  have htext : a.text = some t := by rw [g2, f2]
+  have hta : a.textAtomic = false := by rw [g3, f3]; rfl
+  have hkids : a.children = [] := by rw [g4, f4]; rfl
+  have htail : a.tail = none := by rw [g5, f5]; rfl
+  have htla : a.tailAtomic = false := by rw [g6, f6]; rfl
+  have hcode : isCode a = false := by
+    simp only [isCode, htag]; decide
+  refine ⟨?_, htail, hcode, ?_⟩
+  · rw [Node.forall_iff]
+    refine ⟨⟨by rw [htag]; show NoCtl "a".toList; decide, hattrs, htla, by rw [htail]; exact strB_none k, ?_⟩,
+      by rw [hkids]; intro c hc; cases hc⟩
+    rw [if_neg (by rw [hcode]; decide)]
+    exact ⟨hta, by rw [htext]; exact ht⟩
+  · rw [Node.forall_iff]
+    refine ⟨⟨fun _ => by rw [htext]; exact hq, by rw [htail]; exact qw_nil wl⟩,
+      by rw [hkids]; intro c hc; cases hc⟩
+
+/-- the `sup` element of a footnote reference -/
+theorem fnRefNode_ok (keys : List Str) {id refId : Str} (hid : NoCtl id) (hr : NoCtl refId) (k : Nat) (wl : Bool) :
+    (fnRefNode keys id refId).Forall (SNodeB k) ∧ (fnRefNode keys id refId).tail = none ∧
+      (fnRefNode keys id refId).Forall (QN wl) := by
+  obtain ⟨d1, d2, d3⟩ := digits_strB (natToDec_digits (indexOf keys id + 1)) k
+  have hhref : NoCtl ('#' :: Footnotes.footnoteId id) := by
+    simp only [Footnotes.footnoteId]
+    exact noCtl_cons.2 ⟨by decide, noCtl_cons.2 ⟨by decide, noCtl_cons.2 ⟨by decide, noCtl_cons.2 ⟨by decide, hid⟩⟩⟩⟩
+  obtain ⟨a1, a2, a3, a4⟩ := aNode2_ok (t := natToDec (indexOf keys id + 1)) (k1 := "href".toList)
+    (v1 := '#' :: Footnotes.footnoteId id) (k2 := "class".toList) (v2 := "footnote-ref".toList)
+    (by decide) hhref (by decide) (by decide) k d1 wl (qw_of_no_bracket d3)
+  obtain ⟨f1, f2, f3, f4, f5, f6⟩ := setAttr_frame (mkEl "sup") "id".toList refId
+  have hattrs : attrsNoCtl ((mkEl "sup").setAttr "id".toList refId).attrs :=
+    attrsNoCtl_setAttr (n := mkEl "sup") (by intro kv hkv; simp [mkEl] at hkv) (by decide) hr
+  unfold fnRefNode
+  simp only
+  refine ⟨?_, by show ((mkEl "sup").setAttr "id".toList refId).tail = none; rw [f5]; rfl, ?_⟩
+  · rw [Node.forall_iff]
+    refine ⟨⟨by show tagNoCtl ((mkEl "sup").setAttr "id".toList refId).tag; rw [f1]; show NoCtl "sup".toList; decide,
+      hattrs, by show ((mkEl "sup").setAttr "id".toList refId).tailAtomic = false; rw [f6]; rfl,
+      by show StrB k ((mkEl "sup").setAttr "id".toList refId).tail; rw [f5]; exact strB_none k, ?_⟩, ?_⟩
+    · have hc : ∀ l : List Node,
+          ¬ isCode ({ (mkEl "sup").setAttr "id".toList refId with children := l } : Node) = true := by
+        intro l
+        show ¬ (((mkEl "sup").setAttr "id".toList refId).tag == Tag.name "code".toList) = true
+        rw [f1]; decide
+      rw [if_neg (hc _)]
+      exact ⟨by show ((mkEl "sup").setAttr "id".toList refId).textAtomic = false; rw [f3]; rfl,
+        by show StrB k ((mkEl "sup").setAttr "id".toList refId).text; rw [f2]; exact strB_none k⟩
+    · intro c hc
+      simp only [List.mem_singleton] at hc
+      subst hc
+      exact a1
+  · rw [Node.forall_iff]
+    refine ⟨⟨fun _ => ?_, ?_⟩, ?_⟩
+    · show Qw wl (((mkEl "sup").setAttr "id".toList refId).text.getD [])
+      rw [f2]; exact qw_nil wl
+    · show Qw wl (((mkEl "sup").setAttr "id".toList refId).tail.getD [])
+      rw [f5]; exact qw_nil wl
+    · intro c hc
+      simp only [List.mem_singleton] at hc
+      subst hc
+      exact a4
+
+theorem entry_footnote {wl : Bool} {xc : XCfg} (hkeys : ∀ k ∈ xc.fnKeys, NoCtl k) {pi : Nat} (hpi : 1 ≤ pi) :
+    EntrySpecXB wl xc pi .footnote := by
+  intro data si x fo x' _ hd hq h
+  have hdone : BtDone data := (btInv_succ hpi).1 hd.bt
+  simp only [findX] at h
+  split at h
+  · simp only [Option.some.injEq, Prod.mk.injEq] at h
+    obtain ⟨rfl, rfl⟩ := h
+    exact ⟨rfl, rfl, fun f hf => (by cases hf), fun _ => hdone⟩
+  · cases hf : fnRefScan xc.fnKeys 0 (data.drop si) si with
+    | none =>
+      simp only [hf, Option.some.injEq, Prod.mk.injEq] at h
+      obtain ⟨rfl, rfl⟩ := h
+      exact ⟨rfl, rfl, fun f hf => (by cases hf), fun _ => hdone⟩
+    | some r =>
+      obtain ⟨id, s, e⟩ := r
+      simp only [hf, Option.some.injEq, Prod.mk.injEq] at h
+      obtain ⟨rfl, rfl⟩ := h
+      refine ⟨rfl, rfl, ?_, fun h0 => by cases h0⟩
+      intro f hfo
+      cases hfo
+      obtain ⟨pre, post, hsuf, rfl, rfl, hk⟩ := fnRefScan_spec _ _ _ _ _ _ _ hf
+      have hid : NoCtl id := hkeys id (by simpa using hk)
+      have hMne : ('[' :: '^' :: id) ++ [']'] ≠ [] := by simp
+      have hsp := spliceB_of_span (M := ('[' :: '^' :: id) ++ [']']) hpi hd hsuf hMne
+        (by intro c hc; simp at hc; subst hc; decide)
+        (by intro c hc; rw [List.getLast?_concat] at hc; cases hc; decide)
+      obtain ⟨n1, n2, n3⟩ := fnRefNode_ok xc.fnKeys hid (noCtl_footnoteRefId hid x.fn) x.st.stash.length wl
+      have elen : ((si + pre.length + (id.length + 3) : Nat) : Int) =
+          ((si + pre.length + (('[' :: '^' :: id) ++ [']']).length : Nat) : Int) := by
+        simp; omega
+      constructor
+      · unfold FoundOKB
+        simp only
+        refine ⟨?_, n1, n2, fun h0 => by omega⟩
+        rw [elen]; exact hsp
+      · exact n3
 
 /-! ### tables -/
 
@@ -144,9 +695,11 @@ theorem tableOK_table (fn wl nl : Bool) : tableOK (table fn wl nl) = true := by
 theorem table_length_pos (fn wl nl : Bool) : 1 ≤ (table fn wl nl).length := by
   cases fn <;> cases wl <;> cases nl <;> decide
 
-/-- the contract of the matchers for a table of core patterns and the nl2br pattern -/
-theorem fmSpecXB_nl {xc : XCfg} (hcfg : EscOK xc.cfg.esc) (hrefs : RefsOK xc.cfg) (ht : tableOK xc.table = true)
-    (hk : ∀ k ∈ xc.table, k ≠ .footnote ∧ k ≠ .wikilink) : FMSpecXB xc := by
+/-- the contract of the matchers for a table of core patterns, the nl2br pattern and — when `wl` — the wikilink
+    pattern -/
+theorem fmSpecXB_inline {wl : Bool} {xc : XCfg} (hcfg : EscOK xc.cfg.esc) (hrefs : RefsOK xc.cfg)
+    (ht : tableOK xc.table = true) (hk : ∀ k ∈ xc.table, k ≠ .footnote ∧ (k = .wikilink → wl = true)) :
+    FMSpecXB wl xc := by
   apply fmSpecXB_of_entries
   intro pi k hpk
   have hg := tableOK_get ht hpk
@@ -154,17 +707,49 @@ theorem fmSpecXB_nl {xc : XCfg} (hcfg : EscOK xc.cfg.esc) (hrefs : RefsOK xc.cfg
   cases k with
   | core i => exact entry_core hcfg hrefs hg.1 hg.2
   | footnote => exact absurd rfl hm.1
-  | wikilink => exact absurd rfl hm.2
+  | wikilink =>
+    have := hm.2 rfl
+    subst this
+    exact entry_wikilink hg
   | nl => exact entry_nl hg
 
-theorem table_nl_mem (nl : Bool) : ∀ k ∈ table false false nl, k ≠ .footnote ∧ k ≠ .wikilink := by
-  cases nl <;> decide
+/-- the contract of the matchers for any of the tables `InlineX.table …` -/
+theorem fmSpecXB_tables {wl : Bool} {xc : XCfg} (hcfg : EscOK xc.cfg.esc) (hrefs : RefsOK xc.cfg)
+    (hkeys : ∀ k ∈ xc.fnKeys, NoCtl k) (ht : tableOK xc.table = true)
+    (hk : ∀ k ∈ xc.table, k = .wikilink → wl = true) : FMSpecXB wl xc := by
+  apply fmSpecXB_of_entries
+  intro pi k hpk
+  have hg := tableOK_get ht hpk
+  have hm := hk k (List.mem_of_getElem? hpk)
+  cases k with
+  | core i => exact entry_core hcfg hrefs hg.1 hg.2
+  | footnote => exact entry_footnote hkeys hg
+  | wikilink =>
+    have := hm rfl
+    subst this
+    exact entry_wikilink hg
+  | nl => exact entry_nl hg
 
-/-- `HISpecXB` for the tables with nl2br on or off (no footnote, no wikilink pattern) -/
-theorem hiSpecXB_nl {xc : XCfg} (hcfg : EscOK xc.cfg.esc) (hrefs : RefsOK xc.cfg) {nl : Bool}
-    (ht : xc.table = table false false nl) : HISpecXB xc :=
+theorem table_wl_mem (fn wl nl : Bool) : ∀ k ∈ table fn wl nl, k = .wikilink → wl = true := by
+  cases fn <;> cases wl <;> cases nl <;> decide
+
+/-- `HISpecXB` for all eight tables; the footnote keys (the ids of the footnote definitions, which the block parser
+    cuts out of the normalised source) have no STX/ETX -/
+theorem hiSpecXB_tables {xc : XCfg} (hcfg : EscOK xc.cfg.esc) (hrefs : RefsOK xc.cfg)
+    (hkeys : ∀ k ∈ xc.fnKeys, NoCtl k) {fn wl nl : Bool} (ht : xc.table = table fn wl nl) : HISpecXB wl xc :=
   hiSpecXB_of_fmSpecXB
-    (fmSpecXB_nl hcfg hrefs (by rw [ht]; exact tableOK_table _ _ _) (by rw [ht]; exact table_nl_mem nl))
+    (fmSpecXB_tables hcfg hrefs hkeys (by rw [ht]; exact tableOK_table _ _ _) (by rw [ht]; exact table_wl_mem fn wl nl))
+    (by rw [ht]; exact table_length_pos _ _ _)
+
+theorem table_inline_mem (wl nl : Bool) :
+    ∀ k ∈ table false wl nl, k ≠ .footnote ∧ (k = .wikilink → wl = true) := by
+  cases wl <;> cases nl <;> decide
+
+/-- `HISpecXB` for the tables with nl2br and wikilinks on or off (no footnote pattern) -/
+theorem hiSpecXB_inline {xc : XCfg} (hcfg : EscOK xc.cfg.esc) (hrefs : RefsOK xc.cfg) {wl nl : Bool}
+    (ht : xc.table = table false wl nl) : HISpecXB wl xc :=
+  hiSpecXB_of_fmSpecXB
+    (fmSpecXB_inline hcfg hrefs (by rw [ht]; exact tableOK_table _ _ _) (by rw [ht]; exact table_inline_mem wl nl))
     (by rw [ht]; exact table_length_pos _ _ _)
 
 end MdVerif.NoCtlX
